@@ -18,6 +18,8 @@
 //!           proxies chosen by replace_proxy in execution order (recorded),
 //!       N = `-` or `k~kind~reporter~F~T~C|…`: a whole round of another coordinator just before call k
 //!   flush choices=<C>                       every delayed call is delivered now
+//!   redeliver <cluster> <M|I|N> <epoch> <src_proxy> <src_node> <dst_proxy> <dst_node> <ranges>
+//!                                           an earlier commit request reaches the broker (again) now
 //!   t <i>                                   i-th record of the last round: `<k> <call> -> <reply> || <digest>`
 //!   proxies | broker | digest | bag
 use arc_swap::ArcSwap;
@@ -527,6 +529,8 @@ struct Oracle {
     /// per address: (incarnation, epoch, state text) last observed
     last: BTreeMap<String, (u64, u64, String)>,
     commits_ok: BTreeMap<String, usize>,
+    /// every distinct commit request the coordinators issued in this case (for `redeliver`)
+    commit_log: Vec<MigrationTaskMeta>,
     failures: Vec<(String, String)>, // (what, finding id)
     panics: Vec<String>,
 }
@@ -783,11 +787,39 @@ impl Ctl {
             }
             Wire::Commit(t) => {
                 let t: MigrationTaskMeta = roundtrip(t);
+                let epoch = t.slot_range.tag.get_migration_meta().map(|m| m.epoch).unwrap_or(0);
                 let key = render_task(&MigrationTaskMeta {
                     cluster_name: t.cluster_name.clone(),
                     slot_range: SlotRange { range_list: t.slot_range.range_list.clone(), tag: SlotRangeTag::None },
-                }) + &format!("@{}", t.slot_range.tag.get_migration_meta().map(|m| m.epoch).unwrap_or(0));
-                match AssertUnwindSafe(self.svc.commit_migration(t)).catch_unwind().await {
+                }) + &format!("@{}", epoch);
+                {
+                    let mut g = self.lock();
+                    if !g.oracle.commit_log.iter().any(|x| render_task(x) == render_task(&t)) {
+                        g.oracle.commit_log.push(t.clone());
+                    }
+                }
+                // the property's own reading of "its own descriptor": the request names a migration that is
+                // running right now - same cluster, same range list, same epoch (the broker's pending entries)
+                let before = self.store().await;
+                let running = pending_text(&before).split(',').any(|p| p == format!("{}:{}@{}", t.cluster_name, render_ranges(&t.slot_range.range_list), epoch));
+                let before_txt = zeroed_store_text(before);
+                let res = AssertUnwindSafe(self.svc.commit_migration(t.clone())).catch_unwind().await;
+                let after_txt = zeroed_store_text(self.store().await);
+                if !running {
+                    let refused = matches!(&res, Ok(Err(e)) if status_of(e) == 404);
+                    if !refused || before_txt != after_txt {
+                        self.lock().oracle.failures.push((
+                            format!(
+                                "C07: commit request {} names no running migration (ranges+epoch) but was {} and {} the store",
+                                render_task(&t),
+                                if refused { "refused" } else { "accepted" },
+                                if before_txt != after_txt { "changed" } else { "did not change" }
+                            ),
+                            String::new(),
+                        ));
+                    }
+                }
+                match res {
                     Ok(Ok(())) => {
                         let mut g = self.lock();
                         let n = {
@@ -1826,6 +1858,53 @@ impl World {
         self.collect_oracle();
     }
 
+    /// op tokens of a commit descriptor: `<cluster> <M|I> <epoch> <sp> <sn> <dp> <dn> <ranges>`
+    fn task_tokens(t: &MigrationTaskMeta) -> String {
+        let (k, m) = match &t.slot_range.tag {
+            SlotRangeTag::Migrating(m) => ("M", m.clone()),
+            SlotRangeTag::Importing(m) => ("I", m.clone()),
+            SlotRangeTag::None => ("N", undermoon::common::cluster::MigrationMeta {
+                epoch: 0, src_proxy_address: "-".into(), src_node_address: "-".into(), dst_proxy_address: "-".into(), dst_node_address: "-".into(),
+            }),
+        };
+        format!(
+            "{} {} {} {} {} {} {} {}",
+            t.cluster_name, k, m.epoch, m.src_proxy_address, m.src_node_address, m.dst_proxy_address, m.dst_node_address,
+            render_ranges(&t.slot_range.range_list)
+        )
+    }
+
+    fn commit_log(&self) -> Vec<MigrationTaskMeta> {
+        self.ctl.lock().oracle.commit_log.clone()
+    }
+
+    /// an earlier commit request of a coordinator reaches the broker (again) now: a retried HTTP request or a
+    /// stalled second coordinator
+    fn redeliver(&mut self, t: MigrationTaskMeta) {
+        let ctl = self.ctl.clone();
+        let t2 = t.clone();
+        let res = self.rt.block_on(async move {
+            ctl.lock().ctx.push(RoundCtx {
+                n: 0, faults: BTreeMap::new(), nested: BTreeMap::new(), crashed: false, trace: vec![], targets: vec![], choices: vec![],
+                nested_done: vec![], issued: vec![],
+            });
+            ctl.deliver("late", &Wire::Commit(t2)).await;
+            ctl.lock().ctx.pop().expect("ctx")
+        });
+        self.s.stats.count("op.redeliver");
+        let line = res.trace.first().cloned().unwrap_or_default();
+        if line.contains("-> ok(") {
+            self.s.stats.count("out.redeliver.refused");
+        } else if line.contains("-> ok ||") {
+            self.s.stats.count("out.redeliver.committed");
+            self.had_commit = true;
+        }
+        self.had_fault_effect = true;
+        self.emit(format!("redeliver {}", Self::task_tokens(&t)), line);
+        self.observe_all();
+        self.collect_oracle();
+    }
+
     fn flush(&mut self) {
         let ctl = self.ctl.clone();
         let res = self.rt.block_on(async move {
@@ -2025,7 +2104,89 @@ impl World {
         }
     }
 
+    fn pending_now(&self) -> usize {
+        let ctl = self.ctl.clone();
+        let s = self.rt.block_on(async move { ctl.store().await });
+        let p = pending_text(&s);
+        if p.is_empty() { 0 } else { p.split(',').count() }
+    }
+
+    /// run (finish, mig, sync) until nothing is pending any more (at most `max` times)
+    fn drain_migration(&mut self, rng: &mut Rng, max: usize, faulty: bool) {
+        for _ in 0..max {
+            if self.pending_now() == 0 {
+                break;
+            }
+            self.finish_some(rng, true);
+            let plan = if faulty {
+                // duplicated / long-delayed commit calls: they come back after later rounds
+                let mut p = World::ff("mig");
+                for _ in 0..3 {
+                    let f = if rng.chance(1, 2) { Fault::Dup } else { Fault::Delay(rng.range(30, 400) as usize) };
+                    p.faults.insert(rng.below(30) as usize, f);
+                }
+                p
+            } else {
+                World::ff("mig")
+            };
+            self.round(plan);
+            self.round(World::ff("sync"));
+        }
+    }
+
+    /// the same slot ranges migrate again later (scale out, commit, scale back, ...) while earlier commit
+    /// requests are re-delivered: a stale descriptor must never commit the later migration
+    fn reverse_history(&mut self, rng: &mut Rng) {
+        let limit = *rng.pick(&[0u64, 2, 3, 4]);
+        self.new_case(limit, 1, rng.chance(1, 3));
+        self.s.stats.count("gen.class.reverse-migration");
+        self.setup(rng.range(5, 7) as usize, 1, None);
+        self.round(World::ff("sync"));
+        let legs = rng.range(2, 3);
+        let mut scaled_out = false;
+        for leg in 0..legs {
+            if !scaled_out {
+                if leg > 0 {
+                    self.admin(&["del_free", "c1"]);
+                }
+                self.admin(&["add_nodes", "c1", "4", "-"]);
+                self.admin(&["migrate", "c1"]);
+            } else {
+                self.admin(&["scale_down", "c1", "4"]);
+            }
+            scaled_out = !scaled_out;
+            self.round(World::ff("sync"));
+            // stale requests of the earlier legs arrive while this leg's migrations are running
+            let log = self.commit_log();
+            for t in log.iter() {
+                if rng.chance(2, 3) {
+                    self.redeliver(t.clone());
+                }
+            }
+            if rng.chance(1, 2) {
+                self.flush();
+            }
+            if leg + 1 < legs || rng.chance(1, 2) {
+                let faulty = rng.chance(1, 2);
+                self.drain_migration(rng, 5, faulty);
+            } else if rng.chance(1, 2) {
+                self.finish_some(rng, false);
+                self.round(gen_plan(rng, "mig", true));
+            }
+        }
+        let log = self.commit_log();
+        for t in log.iter() {
+            if rng.chance(1, 3) {
+                self.redeliver(t.clone());
+            }
+        }
+        self.suffix();
+    }
+
     fn random_case(&mut self, rng: &mut Rng) {
+        if rng.chance(1, 6) {
+            return self.reverse_history(rng);
+        }
         let limit = *rng.pick(&[1u64, 2, 2, 3]);
         let quorum = *rng.pick(&[1u64, 1, 2]);
         self.new_case(limit, quorum, rng.chance(1, 3));
@@ -2080,6 +2241,11 @@ impl World {
                     }
                 }
                 4 | 5 => self.finish_some(rng, false),
+                7 if !self.commit_log().is_empty() => {
+                    let log = self.commit_log();
+                    let t = rng.pick(&log).clone();
+                    self.redeliver(t);
+                }
                 6 if rng.chance(1, 3) => {
                     let d = self.down_addrs();
                     if !d.is_empty() {
@@ -2237,6 +2403,9 @@ fn thorough(w: &mut World, rng: &mut Rng) {
             }
         }
     }
+    for _ in 0..80 {
+        w.reverse_history(rng);
+    }
     for _ in 0..300 {
         w.random_case(rng);
     }
@@ -2288,6 +2457,37 @@ fn replay(w: &mut World, lines: &[String]) {
                 nested: parse_nested(strip("nested", ns)),
             }),
             ["flush", ..] => w.flush(),
+            ["redeliver", cluster, k, epoch, sp, sn, dp, dn, ranges] => {
+                let meta = undermoon::common::cluster::MigrationMeta {
+                    epoch: epoch.parse().unwrap_or(0),
+                    src_proxy_address: sp.to_string(),
+                    src_node_address: sn.to_string(),
+                    dst_proxy_address: dp.to_string(),
+                    dst_node_address: dn.to_string(),
+                };
+                let tag = match *k {
+                    "M" => SlotRangeTag::Migrating(meta),
+                    "I" => SlotRangeTag::Importing(meta),
+                    _ => SlotRangeTag::None,
+                };
+                let rl: Vec<undermoon::common::cluster::Range> = if *ranges == "e" {
+                    vec![]
+                } else {
+                    ranges
+                        .split('+')
+                        .filter_map(|r| {
+                            let mut it = r.split('-');
+                            Some(undermoon::common::cluster::Range(it.next()?.parse().ok()?, it.next()?.parse().ok()?))
+                        })
+                        .collect()
+                };
+                if let Ok(cn) = ClusterName::try_from(*cluster) {
+                    w.redeliver(MigrationTaskMeta {
+                        cluster_name: cn,
+                        slot_range: SlotRange { range_list: undermoon::common::cluster::RangeList::new(rl), tag },
+                    });
+                }
+            }
             ["converged"] => {
                 if let Some(why) = w.converged() {
                     w.fail(format!("C07: not converged: {}", why));
